@@ -105,116 +105,116 @@ Proof. reflexivity. Qed.
 (* ------------------------------------------------------------------------------------ *)
 (* integer parsers *)
 
-Lemma in_range_spec : forall bits v, in_range bits v = true <-> int_min bits <= v <= int_max bits.
-Proof. intros bits v. unfold in_range. rewrite andb_true_iff, !Z.leb_le. tauto. Qed.
+Lemma in_range_spec : forall bits v, gd_in_range bits v = true <-> gd_int_min bits <= v <= gd_int_max bits.
+Proof. intros bits v. unfold gd_in_range. rewrite andb_true_iff, !Z.leb_le. tauto. Qed.
 
-Lemma parse_int_in_range : forall bits s v, parse_int bits s = Some v -> in_range bits v = true.
+Lemma parse_int_in_range : forall bits s v, gd_parse_int bits s = Some v -> gd_in_range bits v = true.
 Proof.
-  intros bits s v Hp. unfold parse_int in Hp.
+  intros bits s v Hp. unfold gd_parse_int in Hp.
   destruct s as [|c r]; [discriminate|].
   destruct (if (c =? 43)%N then (false, r) else if (c =? 45)%N then (true, r) else (false, c :: r)) as [neg ds] eqn:Hs.
   destruct ds as [|d ds']; [discriminate|].
-  destruct (digits_val 0 (d :: ds')) as [w|]; [|discriminate].
-  destruct (in_range bits (if neg then - w else w)) eqn:Hr; [|discriminate].
+  destruct (gd_digits_val 0 (d :: ds')) as [w|]; [|discriminate].
+  destruct (gd_in_range bits (if neg then - w else w)) eqn:Hr; [|discriminate].
   inversion Hp; subst; exact Hr.
 Qed.
 
-Lemma digit_val_range : forall b d, digit_val b = Some d -> 0 <= d <= 9.
+Lemma digit_val_range : forall b d, gd_digit_val b = Some d -> 0 <= d <= 9.
 Proof.
-  intros b d. unfold digit_val. destruct ((48 <=? b) && (b <=? 57))%N eqn:H; [|discriminate].
+  intros b d. unfold gd_digit_val. destruct ((48 <=? b) && (b <=? 57))%N eqn:H; [|discriminate].
   apply andb_true_iff in H. destruct H as [H1 H2]. apply N.leb_le in H1. apply N.leb_le in H2.
   intros E. inversion E. lia.
 Qed.
 
-Lemma digit_not_sign : forall b d, digit_val b = Some d -> (b =? 43)%N = false /\ (b =? 45)%N = false.
+Lemma digit_not_sign : forall b d, gd_digit_val b = Some d -> (b =? 43)%N = false /\ (b =? 45)%N = false.
 Proof.
-  intros b d. unfold digit_val. destruct ((48 <=? b) && (b <=? 57))%N eqn:H; [|discriminate].
+  intros b d. unfold gd_digit_val. destruct ((48 <=? b) && (b <=? 57))%N eqn:H; [|discriminate].
   apply andb_true_iff in H. destruct H as [H1 _]. apply N.leb_le in H1. intros _.
   split; apply N.eqb_neq; lia.
 Qed.
 
-Lemma digits_val_mono : forall l acc v, 0 <= acc -> digits_val acc l = Some v -> acc <= v.
+Lemma digits_val_mono : forall l acc v, 0 <= acc -> gd_digits_val acc l = Some v -> acc <= v.
 Proof.
-  induction l as [|b r IH]; intros acc v Hacc H; cbn [digits_val] in H.
+  induction l as [|b r IH]; intros acc v Hacc H; cbn [gd_digits_val] in H.
   - inversion H; lia.
-  - destruct (digit_val b) as [d|] eqn:Hd; [|discriminate].
+  - destruct (gd_digit_val b) as [d|] eqn:Hd; [|discriminate].
     apply digit_val_range in Hd. apply IH in H; lia.
 Qed.
 
 (* an all-digit string (no sign) parses to its exact value or, outside the range, is rejected *)
-Lemma parse_int_digits : forall bits s v, s <> [] -> digits_val 0 s = Some v ->
-  parse_int bits s = if in_range bits v then Some v else None.
+Lemma parse_int_digits : forall bits s v, s <> [] -> gd_digits_val 0 s = Some v ->
+  gd_parse_int bits s = if gd_in_range bits v then Some v else None.
 Proof.
   intros bits s v Hne Hv. destruct s as [|c r]; [congruence|].
-  unfold parse_int. pose proof Hv as Hv'. cbn [digits_val] in Hv'.
-  destruct (digit_val c) as [d|] eqn:Hd; [|discriminate].
+  unfold gd_parse_int. pose proof Hv as Hv'. cbn [gd_digits_val] in Hv'.
+  destruct (gd_digit_val c) as [d|] eqn:Hd; [|discriminate].
   destruct (digit_not_sign _ _ Hd) as [H1 H2]. rewrite H1, H2. rewrite Hv. reflexivity.
 Qed.
 
-Lemma parse_int_rejects_overflow : forall bits s v, s <> [] -> digits_val 0 s = Some v ->
-  int_max bits < v -> parse_int bits s = None.
+Lemma parse_int_rejects_overflow : forall bits s v, s <> [] -> gd_digits_val 0 s = Some v ->
+  gd_int_max bits < v -> gd_parse_int bits s = None.
 Proof.
   intros bits s v Hne Hv Hbig. rewrite (parse_int_digits bits s v Hne Hv).
-  destruct (in_range bits v) eqn:Hr; [|reflexivity].
+  destruct (gd_in_range bits v) eqn:Hr; [|reflexivity].
   apply in_range_spec in Hr. lia.
 Qed.
 
-Lemma parse_int_rejects_nondigit : forall bits s, s <> [] -> digits_val 0 s = None ->
+Lemma parse_int_rejects_nondigit : forall bits s, s <> [] -> gd_digits_val 0 s = None ->
   (match s with c :: _ => (c =? 43)%N = false /\ (c =? 45)%N = false | [] => True end) ->
-  parse_int bits s = None.
+  gd_parse_int bits s = None.
 Proof.
   intros bits s Hne Hv Hsign. destruct s as [|c r]; [congruence|].
-  destruct Hsign as [H1 H2]. unfold parse_int. rewrite H1, H2, Hv. reflexivity.
+  destruct Hsign as [H1 H2]. unfold gd_parse_int. rewrite H1, H2, Hv. reflexivity.
 Qed.
 
-Lemma parse_int_empty : forall bits, parse_int bits [] = None.
+Lemma parse_int_empty : forall bits, gd_parse_int bits [] = None.
 Proof. reflexivity. Qed.
 
-Lemma parse_uint32_range : forall s v, parse_uint32 s = Some v -> 0 <= v <= 2 ^ 32 - 1.
+Lemma parse_uint32_range : forall s v, gd_parse_uint32 s = Some v -> 0 <= v <= 2 ^ 32 - 1.
 Proof.
-  intros s v. unfold parse_uint32. destruct s as [|c r]; [discriminate|].
-  destruct (digits_val 0 (c :: r)) as [w|] eqn:Hw; [|discriminate].
+  intros s v. unfold gd_parse_uint32. destruct s as [|c r]; [discriminate|].
+  destruct (gd_digits_val 0 (c :: r)) as [w|] eqn:Hw; [|discriminate].
   destruct (w <=? 2 ^ 32 - 1) eqn:Hle; [|discriminate].
   intros E; inversion E; subst. apply Z.leb_le in Hle.
   apply digits_val_mono in Hw; lia.
 Qed.
 
-Lemma json_int_in_range : forall bits dflt j v, in_range bits dflt = true ->
-  json_int bits dflt j = Some v -> in_range bits v = true.
+Lemma json_int_in_range : forall bits dflt j v, gd_in_range bits dflt = true ->
+  gd_json_int bits dflt j = Some v -> gd_in_range bits v = true.
 Proof.
-  intros bits dflt j v Hd. destruct j as [| |w|]; cbn [json_int]; intros H.
+  intros bits dflt j v Hd. destruct j as [| |w|]; cbn [gd_json_int]; intros H.
   - inversion H; subst; exact Hd.
   - inversion H; subst; exact Hd.
-  - destruct (in_range bits w) eqn:Hr; [|discriminate]. inversion H; subst; exact Hr.
+  - destruct (gd_in_range bits w) eqn:Hr; [|discriminate]. inversion H; subst; exact Hr.
   - discriminate.
 Qed.
 
 (* the statement used in Props: parsing is a total function whose successful results fit
    the destination type, and strings that denote a number outside it are rejected *)
 Lemma int_parsers_total :
-  (forall s, match parse_int64 s with Some v => - 2 ^ 63 <= v <= 2 ^ 63 - 1 | None => True end) /\
-  (forall s, match atoi s with Some v => - 2 ^ 63 <= v <= 2 ^ 63 - 1 | None => True end) /\
-  (forall s v, s <> [] -> digits_val 0 s = Some v -> 2 ^ 63 - 1 < v -> parse_int64 s = None) /\
-  (forall s v, s <> [] -> digits_val 0 s = Some v -> 2 ^ 63 < v -> parse_int64 (45%N :: s) = None) /\
-  (forall j v, json_int 32 0 j = Some v -> - 2 ^ 31 <= v <= 2 ^ 31 - 1) /\
-  (forall dflt j v, in_range 64 dflt = true -> json_int 64 dflt j = Some v -> - 2 ^ 63 <= v <= 2 ^ 63 - 1) /\
-  (forall s v, parse_uint32 s = Some v -> 0 <= v <= 2 ^ 32 - 1).
+  (forall s, match gd_parse_int64 s with Some v => - 2 ^ 63 <= v <= 2 ^ 63 - 1 | None => True end) /\
+  (forall s, match gd_atoi s with Some v => - 2 ^ 63 <= v <= 2 ^ 63 - 1 | None => True end) /\
+  (forall s v, s <> [] -> gd_digits_val 0 s = Some v -> 2 ^ 63 - 1 < v -> gd_parse_int64 s = None) /\
+  (forall s v, s <> [] -> gd_digits_val 0 s = Some v -> 2 ^ 63 < v -> gd_parse_int64 (45%N :: s) = None) /\
+  (forall j v, gd_json_int 32 0 j = Some v -> - 2 ^ 31 <= v <= 2 ^ 31 - 1) /\
+  (forall dflt j v, gd_in_range 64 dflt = true -> gd_json_int 64 dflt j = Some v -> - 2 ^ 63 <= v <= 2 ^ 63 - 1) /\
+  (forall s v, gd_parse_uint32 s = Some v -> 0 <= v <= 2 ^ 32 - 1).
 Proof.
-  assert (R64 : forall s v, parse_int 64 s = Some v -> - 2 ^ 63 <= v <= 2 ^ 63 - 1).
+  assert (R64 : forall s v, gd_parse_int 64 s = Some v -> - 2 ^ 63 <= v <= 2 ^ 63 - 1).
   { intros s v H. apply parse_int_in_range, in_range_spec in H.
-    change (int_min 64) with (- 2 ^ 63) in H. change (int_max 64) with (2 ^ 63 - 1) in H. exact H. }
+    change (gd_int_min 64) with (- 2 ^ 63) in H. change (gd_int_max 64) with (2 ^ 63 - 1) in H. exact H. }
   split; [|split; [|split; [|split; [|split; [|split]]]]].
-  - intros s. destruct (parse_int64 s) as [v|] eqn:H; [|exact I]. exact (R64 s v H).
-  - intros s. destruct (atoi s) as [v|] eqn:H; [|exact I]. exact (R64 s v H).
+  - intros s. destruct (gd_parse_int64 s) as [v|] eqn:H; [|exact I]. exact (R64 s v H).
+  - intros s. destruct (gd_atoi s) as [v|] eqn:H; [|exact I]. exact (R64 s v H).
   - intros s v Hne Hv Hbig. apply (parse_int_rejects_overflow 64 s v Hne Hv). exact Hbig.
-  - intros s v Hne Hv Hbig. unfold parse_int64, parse_int. cbn [N.eqb Pos.eqb].
+  - intros s v Hne Hv Hbig. unfold gd_parse_int64, gd_parse_int. cbn [N.eqb Pos.eqb].
     destruct s as [|c r]; [congruence|]. rewrite Hv.
-    destruct (in_range 64 (- v)) eqn:Hr; [|reflexivity].
-    apply in_range_spec in Hr. change (int_min 64) with (- 2 ^ 63) in Hr. lia.
+    destruct (gd_in_range 64 (- v)) eqn:Hr; [|reflexivity].
+    apply in_range_spec in Hr. change (gd_int_min 64) with (- 2 ^ 63) in Hr. lia.
   - intros j v H. apply (json_int_in_range 32 0 j v eq_refl), in_range_spec in H.
-    change (int_min 32) with (- 2 ^ 31) in H. change (int_max 32) with (2 ^ 31 - 1) in H. exact H.
+    change (gd_int_min 32) with (- 2 ^ 31) in H. change (gd_int_max 32) with (2 ^ 31 - 1) in H. exact H.
   - intros dflt j v Hd H. apply (json_int_in_range 64 dflt j v Hd), in_range_spec in H.
-    change (int_min 64) with (- 2 ^ 63) in H. change (int_max 64) with (2 ^ 63 - 1) in H. exact H.
+    change (gd_int_min 64) with (- 2 ^ 63) in H. change (gd_int_max 64) with (2 ^ 63 - 1) in H. exact H.
   - exact parse_uint32_range.
 Qed.
 
@@ -224,7 +224,7 @@ Qed.
 Lemma recv_config_bufsize_ok : forall j b, recv_config_bufsize j = Some b -> cfg_ok {| bufsize := b; term_cols := 0 |} = true.
 Proof.
   intros j b. unfold recv_config_bufsize, cfg_ok. cbn [bufsize].
-  destruct (json_int 64 Consts.guards_default_bufsize j) as [w|]; [|discriminate].
+  destruct (gd_json_int 64 Consts.guards_default_bufsize j) as [w|]; [|discriminate].
   destruct (w >? Consts.guards_bufsize_clamp) eqn:Hg; intros E; inversion E; subst; apply Z.leb_le.
   - lia.
   - rewrite Z.gtb_ltb in Hg. apply Z.ltb_ge in Hg. exact Hg.
@@ -236,8 +236,8 @@ Proof.
   rewrite clamp_is_arg_max. lia.
 Qed.
 
-Lemma wrap64_small : forall v, - 2 ^ 63 <= v < 2 ^ 63 -> wrap64 v = v.
-Proof. intros v H. unfold wrap64. rewrite Z.mod_small; lia. Qed.
+Lemma wrap64_small : forall v, - 2 ^ 63 <= v < 2 ^ 63 -> gd_wrap64 v = v.
+Proof. intros v H. unfold gd_wrap64. rewrite Z.mod_small; lia. Qed.
 
 Lemma max_data_size_exact : forall c, cfg_ok c = true -> max_data_size c = alloc_bound c.
 Proof.
@@ -306,7 +306,7 @@ Qed.
 (* the line-level functions agree with the guard predicates *)
 Lemma recv_binary_v2_guarded : forall c s n, recv_binary_data_v2 c s = DRead n -> data_accepted c n = true /\ n <> 0.
 Proof.
-  intros c s n. unfold recv_binary_data_v2. destruct (parse_int64 s) as [v|] eqn:Hp; [|discriminate].
+  intros c s n. unfold recv_binary_data_v2. destruct (gd_parse_int64 s) as [v|] eqn:Hp; [|discriminate].
   destruct (v =? 0) eqn:Hz; [discriminate|].
   destruct ((v <? 0) || (v >? max_data_size c)) eqn:Hb; [discriminate|].
   intros E; inversion E; subst. apply parse_int_in_range in Hp. apply orb_false_iff in Hb. destruct Hb as [H1 H2].
@@ -315,7 +315,7 @@ Qed.
 
 Lemma recv_binary_v1_guarded : forall c s n, recv_binary_data_v1 c s = DRead n -> data_accepted c n = true.
 Proof.
-  intros c s n. unfold recv_binary_data_v1. destruct (parse_int64 s) as [v|] eqn:Hp; [|discriminate].
+  intros c s n. unfold recv_binary_data_v1. destruct (gd_parse_int64 s) as [v|] eqn:Hp; [|discriminate].
   destruct ((v <? 0) || (v >? max_data_size c)) eqn:Hb; [discriminate|].
   intros E; inversion E; subst. apply parse_int_in_range in Hp. apply orb_false_iff in Hb. destruct Hb as [H1 H2].
   unfold data_accepted. rewrite Hp, H1, H2. reflexivity.
@@ -356,13 +356,13 @@ Qed.
 (* the final acknowledgement never forwards a step beyond the size *)
 Lemma final_ack_bounded : forall size s st d, recv_final_ack size s = FForward st d -> st <= size /\ (d = true <-> st = size).
 Proof.
-  intros size s st d. unfold recv_final_ack. destruct (parse_int64 s) as [v|]; [|discriminate].
+  intros size s st d. unfold recv_final_ack. destruct (gd_parse_int64 s) as [v|]; [|discriminate].
   destruct (v >? size) eqn:Hg; [discriminate|]. intros E; inversion E; subst.
   rewrite Z.gtb_ltb in Hg. apply Z.ltb_ge in Hg. split; [lia|]. rewrite Z.eqb_eq. tauto.
 Qed.
 
 (* ... but the per-chunk acknowledgement and the hash acknowledgement do: any int64 gets through *)
-Lemma ack_step_unguarded : forall c sent step, in_range 64 step = true ->
+Lemma ack_step_unguarded : forall c sent step, gd_in_range 64 step = true ->
   guard FAckStep c sent step = true /\ guard FHashAckStep c sent step = true.
 Proof. intros c sent step H. cbn [guard]. rewrite H. split; reflexivity. Qed.
 
